@@ -107,8 +107,11 @@ def scenarios(rng: random.Random, tier: str):
             evs.append(f"ans 0 {k} 2001")
             if rng.random() < 0.2:
                 evs.append(f"ans 0 {k} 2001")          # second answer for the same request
+        # overlapping reconnect: the requester opens a second connection, then the first one is lost
+        if rng.random() < 0.25:
+            evs.insert(len(evs) // 2, f"acc | rx {npeers} " + nodegen.cer("peer1.x", "4", n(), n()) + " | eof 0")
         # reconnection of the requester before the answer
-        if rng.random() < 0.3:
+        elif rng.random() < 0.3:
             evs.insert(len(evs) // 2, f"eof 0 | acc | rx {npeers} " + nodegen.cer("peer1.x", "4", n(), n()))
         out.append(pre + " | " + " | ".join(evs))
     return out
